@@ -161,6 +161,10 @@ func New(r *vfw.Run, o Opts) *Scn {
 		first = vfw.BaseTime.Add(time.Duration(8+t.Choose("cfg.firstceremony", 23)) * time.Minute).Unix()
 	}
 
+	if o.RealEpochDays && t.Choose("cfg.first1330", 2) == 0 {
+		// the protocol's own calendar has special cases by clock time (13:30 UTC ceremonies move to 15:00 with upgrade 12)
+		first = vfw.BaseTime.Add(90 * time.Minute).Unix()
+	}
 	alloc := map[common.Address]config.GenesisAllocation{}
 	states := []state.IdentityState{state.Verified, state.Human, state.Newbie, state.Verified, state.Candidate, state.Suspended, state.Zombie, state.Invite, state.Undefined, state.Human}
 	for i := 0; i < n; i++ {
